@@ -632,9 +632,20 @@ impl Props for GProps {
         std::ops::ControlFlow::Continue(())
     }
 }
+/// The frame is 16 bytes large and 16-byte aligned: small enough for the slot's type-erased inline storage, which is
+/// only 8-byte aligned — so the slot has to box it. Every method checks that the frame it is handed is aligned
+/// (`frame-misaligned`; a misaligned `&mut` is undefined behaviour, whatever the processor then does with it).
+#[repr(align(16))]
+struct GFrame(Option<Box<Vec<(String, GV)>>>);
+static G_MISALIGNED: AtomicBool = AtomicBool::new(false);
+fn g_aligned(f: &GFrame) {
+    if (f as *const GFrame as usize) % std::mem::align_of::<GFrame>() != 0 {
+        G_MISALIGNED.store(true, Ordering::SeqCst);
+    }
+}
 struct GCtxt {
     base: GProps,
-    cur: Mutex<Option<Vec<(String, GV)>>>,
+    cur: Mutex<Option<Box<Vec<(String, GV)>>>>,
 }
 impl GCtxt {
     fn new(cfg: u64) -> Self {
@@ -643,7 +654,7 @@ impl GCtxt {
 }
 impl Ctxt for GCtxt {
     type Current = GProps;
-    type Frame = Option<Vec<(String, GV)>>;
+    type Frame = GFrame;
     fn open_root<P: Props>(&self, props: P) -> Self::Frame {
         let mut v = Vec::new();
         let _ = props.for_each(|k, val| {
@@ -654,22 +665,26 @@ impl Ctxt for GCtxt {
             v.push((k.get().to_string(), gv));
             std::ops::ControlFlow::Continue(())
         });
-        Some(v)
+        GFrame(Some(Box::new(v)))
     }
     fn enter(&self, frame: &mut Self::Frame) {
-        std::mem::swap(&mut *self.cur.lock().unwrap(), frame);
+        g_aligned(frame);
+        std::mem::swap(&mut *self.cur.lock().unwrap(), &mut frame.0);
     }
     fn with_current<R, F: FnOnce(&Self::Current) -> R>(&self, with: F) -> R {
         let cur = self.cur.lock().unwrap().clone();
         match cur {
-            Some(v) => with(&GProps(v)),
+            Some(v) => with(&GProps(*v)),
             None => with(&self.base),
         }
     }
     fn exit(&self, frame: &mut Self::Frame) {
-        std::mem::swap(&mut *self.cur.lock().unwrap(), frame);
+        g_aligned(frame);
+        std::mem::swap(&mut *self.cur.lock().unwrap(), &mut frame.0);
     }
-    fn close(&self, _: Self::Frame) {}
+    fn close(&self, frame: Self::Frame) {
+        g_aligned(&frame);
+    }
 }
 
 type GSetup = emit::Setup<GEmitter, GFilter, GCtxt, CfgClock, CfgRng>;
@@ -864,6 +879,9 @@ fn run_gseq(plan: Vec<GOp>) -> String {
         .collect();
     let fl: Vec<String> = l.1.iter().map(|(c, t)| format!("({} {})", c, t)).collect();
     let out = format!("{} recv=({}) flushes=({})", outs.join(" "), recv.join(" "), fl.join(" "));
+    if G_MISALIGNED.load(Ordering::SeqCst) {
+        fails.push("frame-misaligned".into());
+    }
     if fails.is_empty() {
         out
     } else {
